@@ -274,12 +274,15 @@ def extract_specs(hm_path, gaps):
                             % (idx, getattr(sp, "name", "?"), cn, e))
                 variants[cn] = []
         base = [(a, b) for a, b, _ in variants[SENTINEL_CLASS]]
-        for cn, its in variants.items():
-            if [(a, b) for a, b, _ in its] != base:
-                gaps.append("METHOD_SPECS[%d] (%s): source depends on %%(class_name)s; per-class sources are not "
-                            "supported by the table" % (idx, sp.name))
-                break
-        out.append({"index": idx, "name": str(sp.name), "class_names": cnr, "items": variants[SENTINEL_CLASS]})
+        # second pass: `%(class_name)s` is modelled — one row per named class whose interpolated source yields other
+        # statements than the sentinel interpolation (Lean: `Spec.perClass`, `Spec.itemsFor`)
+        per_class = []
+        for cn in named_classes(cnr):
+            its = variants.get(cn, [])
+            if [(a, b) for a, b, _ in its] != base and cn not in [c for c, _ in per_class]:
+                per_class.append((cn, its))
+        out.append({"index": idx, "name": str(sp.name), "class_names": cnr, "items": variants[SENTINEL_CLASS],
+                    "per_class": per_class, "uses_class_name": bool(per_class)})
     return out, mod
 
 
@@ -414,7 +417,7 @@ def extract_bindings(nml_path, simple_types, gaps):
             gaps.append("class %s: member_data_items_ %s but subclass marker %s" % (n.name, has_mdi, has_sub))
         if has_mdi or has_sub:
             user, _ = split_class_body(n, simple_types, gaps)
-            binding.append({"name": n.name, "items": items_of(user)})
+            binding.append({"name": n.name, "items": items_of(user), "bases": [ast.unparse(b) for b in n.bases]})
         else:
             other.append(n.name)
     return header, binding, other
@@ -446,7 +449,7 @@ def map_type_name(n, table):
 
 def extract_schema(xsd_path, table, gaps):
     root = ET.parse(xsd_path).getroot()
-    cts, raw = [], []
+    cts, raw, bases, flags = [], [], [], []
     for e in root.iter(XS + "complexType"):
         nm = e.get("name")
         if nm is None:
@@ -454,6 +457,28 @@ def extract_schema(xsd_path, table, gaps):
             continue
         raw.append(nm)
         cts.append(map_type_name(nm, table))
+        # second pass: the extension base (generateDS makes it the Python base class)
+        b = []
+        for cc in e:
+            if cc.tag in (XS + "complexContent", XS + "simpleContent"):
+                for x in cc:
+                    if x.tag in (XS + "extension", XS + "restriction") and x.get("base"):
+                        b.append((cc.tag.split("}")[1], x.tag.split("}")[1], x.get("base")))
+        if len(b) > 1:
+            gaps.append("complexType %s has %d content derivations" % (nm, len(b)))
+        base = None
+        if b:
+            q = b[0][2]
+            pref, _, local = q.rpartition(":")
+            if pref in ("xs", "xsd"):
+                base = None                      # built-in simple type: no Python base class
+            else:
+                base = map_type_name(local, table)
+            if b[0][1] != "extension":
+                gaps.append("complexType %s derives by %s (only extension is translated)" % (nm, b[0][1]))
+        bases.append((map_type_name(nm, table), base))
+        if e.get("abstract") is not None or e.get("mixed") is not None:
+            flags.append((nm, e.get("abstract"), e.get("mixed")))
     sts = [e.get("name") for e in root.iter(XS + "simpleType") if e.get("name")]
     enums = []
     for e in root.iter(XS + "simpleType"):
@@ -462,7 +487,7 @@ def extract_schema(xsd_path, table, gaps):
     for e in root:
         if e.tag in (XS + "include", XS + "import", XS + "redefine"):
             gaps.append("schema uses %s (%s): included types are not translated" % (e.tag.split('}')[1], e.attrib))
-    return {"complex_raw": raw, "complex": cts, "simple": sts, "enums": enums}
+    return {"complex_raw": raw, "complex": cts, "simple": sts, "enums": enums, "bases": bases, "flags": flags}
 
 
 # ------------------------------------------------------------------------------------------------ version strings
@@ -555,6 +580,69 @@ def extract_writer(writers_path, init_path, gaps):
     return r
 
 
+# ------------------------------------------------------------------------------------------------ occurrences
+OCC_RE = re.compile(r"NeuroML_?[A-Za-z0-9_.%${}]*?\.xsd")
+OCC_SKIP_DIRS = ("test", "examples", "__pycache__")
+
+
+def extract_occurrences(repo, current, script_version, gaps):
+    """grep-like: every occurrence of a schema file name (literal or template) in the package's code — *.py, *.sh,
+    *.cfg/*.toml/*.in under neuroml/ (tests, examples and prose *.md excluded; of nml.py only the generation header, the
+    body mentions no schema file) — plus the version declaration itself. -> [{"file","line","what","schema_file","role"}]
+    A template is filled by the value it is filled with at run time (`%s %% neuroml.current_neuroml_version` ->
+    current version, `${NEUROML_VERSION}` -> what the script's own pipeline yields); anything else is a gap."""
+    occ = [{"file": "neuroml/__version__.py", "line": 0, "what": "current_neuroml_version = %r" % current,
+            "schema_file": "NeuroML_%s.xsd" % current, "role": "schema"}]
+    root = os.path.join(repo, "neuroml")
+    for dp, dn, fn in os.walk(root):
+        dn[:] = sorted(d for d in dn if d not in OCC_SKIP_DIRS)
+        for f in sorted(fn):
+            if not f.endswith((".py", ".sh", ".cfg", ".toml", ".in")):
+                continue
+            p = os.path.join(dp, f)
+            rel = os.path.relpath(p, repo)
+            try:
+                text = open(p, encoding="utf-8", errors="replace").read()
+            except OSError:
+                continue
+            if rel == os.path.join("neuroml", "nml", "nml.py"):
+                head = []
+                for ln in text.split("\n"):
+                    if ln.startswith("#") or not ln.strip():
+                        head.append(ln)
+                    else:
+                        break
+                body = text[len("\n".join(head)):]
+                toks = OCC_RE.findall(body)        # the generated type -> schema-file table at the end of the file
+                for tok in sorted(set(toks)):
+                    if "%" in tok or "$" in tok:
+                        gaps.append("nml.py body: schema file template %r is not understood" % tok)
+                    occ.append({"file": rel, "line": -1, "what": "%d occurrences of %r in the generated body"
+                                % (toks.count(tok), tok), "schema_file": tok, "role": "schema"})
+                text = "\n".join(head)
+            for i, ln in enumerate(text.split("\n"), 1):
+                for m in OCC_RE.finditer(ln):
+                    tok = m.group(0)
+                    role = "schema"
+                    if "%s" in tok:
+                        if "current_neuroml_version" in "".join(text.split("\n")[i - 1:i + 2]):
+                            val = tok.replace("%s", current)
+                        else:
+                            gaps.append("%s:%d: schema file template %r is not filled from current_neuroml_version" % (rel, i, tok))
+                            val = tok
+                    elif "${NEUROML_VERSION}" in tok:
+                        val = tok.replace("${NEUROML_VERSION}", script_version)
+                    elif "$" in tok or "%" in tok or "{" in tok:
+                        gaps.append("%s:%d: schema file template %r is not understood" % (rel, i, tok))
+                        val = tok
+                    else:
+                        val = tok
+                    if rel == os.path.join("neuroml", "nml", "config.py"):
+                        role = "nameTable"
+                    occ.append({"file": rel, "line": i, "what": ln.strip()[:120], "schema_file": val, "role": role})
+    return occ
+
+
 # ------------------------------------------------------------------------------------------------ everything
 def extract(repo, cache=None):
     """cache: optional dict; the (slow) parse of nml.py is reused when its text and the simple-type list are unchanged"""
@@ -569,7 +657,7 @@ def extract(repo, cache=None):
         schema = extract_schema(xsd_path, table, gaps)
     else:
         gaps.append("no bundled schema %s for current_neuroml_version %r" % (xsd_name, current))
-        schema = {"complex_raw": [], "complex": [], "simple": [], "enums": []}
+        schema = {"complex_raw": [], "complex": [], "simple": [], "enums": [], "bases": [], "flags": []}
     nml_path = os.path.join(nml_dir, "nml.py")
     ck = None
     if cache is not None:
@@ -601,6 +689,7 @@ def extract(repo, cache=None):
             gaps.append("custom imports template %s does not parse: %r" % (tpl[0], e))
     elif tpl:
         gaps.append("custom imports template named in the header not found: %r" % (tpl,))
+    occurrences = extract_occurrences(repo, current, script["version"], gaps)
     cmd_tokens = shlex.split(header["command_line"]) if header["command_line"] else []
     cmd_opts, cmd_args = parse_cmdline(cmd_tokens[1:])
     cfg = ""
@@ -615,7 +704,7 @@ def extract(repo, cache=None):
         pass
     return {
         "repo": repo, "gaps": gaps, "specs": specs, "binding": binding, "other_classes": other,
-        "schema": schema, "header": header, "helper_file": os.path.basename(hm_path),
+        "schema": schema, "header": header, "helper_file": os.path.basename(hm_path), "occurrences": occurrences,
         "imports": {"shipped": list(header.get("imports", [])), "template": template_imports,
                     "template_file": tpl[0] if len(tpl) == 1 else ""},
         "versions": {
@@ -663,8 +752,8 @@ class Interner:
         return self.ids[s]
 
 
-def emit_lean(data):
-    I = Interner()
+def emit_lean(data, I=None, with_names=True):
+    I = I or Interner()
     L = []
     w = L.append
     w("import NmlVerif.Model.Regen")
@@ -687,7 +776,8 @@ def emit_lean(data):
             c = ".list [%s]" % ", ".join(str(I(x)) for x in cn["v"])
         else:
             c = ".other"
-        spec_lines.append("  ⟨%d, %s, %s⟩" % (I(sp["name"]), c, items(sp["items"])))
+        pc = "[" + ", ".join("(%d, %s)" % (I(cn_), items(its_)) for cn_, its_ in sp.get("per_class", [])) + "]"
+        spec_lines.append("  ⟨%d, %s, %s, %s⟩" % (I(sp["name"]), c, items(sp["items"]), pc))
     ship_lines = ["  (%d, %s)" % (I(c["name"]), items(c["items"])) for c in data["binding"]]
     classes = [I(c["name"]) for c in data["binding"]]
     cts = [I(x) for x in data["schema"]["complex"]]
@@ -720,6 +810,12 @@ def emit_lean(data):
     w("def shippedImports : List Nat := " + natlist(imp_s))
     w("def templateImports : List Nat := " + natlist(imp_t))
     w("")
+    w("/-- second pass: complexType -> extension base (XSD, name mapping applied) / binding class -> Python bases -/")
+    w("def xsdBases : List (Nat × Option Nat) := [" + ", ".join(
+        "(%d, %s)" % (I(a), "none" if b is None else "some %d" % I(b)) for a, b in data["schema"]["bases"]) + "]")
+    w("def classBases : List (Nat × List Nat) := [" + ", ".join(
+        "(%d, [%s])" % (I(c["name"]), ", ".join(str(I(b)) for b in c.get("bases", []))) for c in data["binding"]) + "]")
+    w("")
     w("def versions : Versions where")
     w("  current := " + lean_str(v["current"]))
     w("  xsdRead := " + lean_str(v["xsd_read"]))
@@ -736,6 +832,11 @@ def emit_lean(data):
     w("  bundled := [" + ", ".join(lean_str(x) for x in v["bundled"]) + "]")
     w("  helperFile := " + lean_str(data["helper_file"]))
     w("")
+    w("/-- every occurrence of a schema file name / version in the package's code (second pass) -/")
+    w("def occurrences : List Occurrence := [\n" + ",\n".join(
+        "  ⟨%s, %s, %s, .%s⟩" % (lean_str("%s:%d" % (o["file"], o["line"])), lean_str(o["what"]), lean_str(o["schema_file"]),
+                                 o["role"]) for o in data["occurrences"]) + "]")
+    w("")
     w("def tables : Tables where")
     w("  specs := specs")
     w("  shipped := shipped")
@@ -747,11 +848,16 @@ def emit_lean(data):
     w("  shippedImports := shippedImports")
     w("  templateImports := templateImports")
     w("  versions := versions")
+    w("  occurrences := occurrences")
+    w("  xsdBases := xsdBases")
+    w("  classBases := classBases")
+    w("  rootBase := %d" % I("GeneratedsSuper"))
     w("")
-    # names last (interning complete); not used by any theorem, only by the driver / for reading the table
-    w("def names : Array String := #[\n  " + ",\n  ".join(
-        ", ".join(lean_str(n) for n in I.names[i:i + 6]) for i in range(0, len(I.names), 6)) + "]")
-    w("")
+    if with_names:
+        # names last (interning complete); not used by any theorem, only by the driver / for reading the table
+        w("def names : Array String := #[\n  " + ",\n  ".join(
+            ", ".join(lean_str(n) for n in I.names[i:i + 6]) for i in range(0, len(I.names), 6)) + "]")
+        w("")
     w("end NmlVerif.Gen.Regen")
     return "\n".join(L) + "\n", I
 
